@@ -6,7 +6,7 @@ from __future__ import annotations
 from lib import Infra
 
 import msglib as M
-from msglib import REF, ALERT_REF, show_fields, parse_fields, show_val, tup, ref_pack, OutOfType, dump_dict
+from msglib import REF, ALERT_REF, show_fields, parse_fields, show_val, tup, ref_pack, OutOfType, dump_dict, Hang, limited
 from txlib import compact_size, ref_wire
 
 from pycoin.symbols.btc import network as BTC
@@ -27,10 +27,25 @@ RULE = ("ops msg_rt <name> <fields> (pack then parse) and msg_parse <name> <byte
         "txs/blocks/headers; malformed stream = truncations and bit flips of valid encodings; distinct = distinct op line; "
         "trivial = messages without fields")
 ASSUMPTIONS = ["the reference layout table in harness/msglib.py is written from the protocol documentation with pycoin's field names",
-               "merkleblock round trip is claimed for field values that form a valid partial merkle tree (the post-processor validates)"]
+               "merkleblock round trip is claimed for field values that form a valid partial merkle tree (the post-processor validates)",
+               "malformed-stream inputs whose [hash] array count exceeds what the data can hold by more than 5000 are excluded "
+               "(f.read(32) succeeds on an exhausted stream, so the parser loops `count` times); impl calls are time-limited (3 s)"]
 KNOWN: dict = {}
 
 NAMES = sorted(REF)
+
+
+def hash_array_count_sane(name: str, data: bytes) -> bool:
+    """False when the `[hash]` array of getblocks/getheaders/merkleblock announces > 5000 elements more than the data can
+    hold: both the implementation and the model would loop that many times over an exhausted stream (excluded input)"""
+    off = {"getblocks": 4, "getheaders": 4, "merkleblock": 84}.get(name)
+    if off is None or len(data) <= off:
+        return True
+    t = data[off]
+    width = {0xFD: 2, 0xFE: 4, 0xFF: 8}.get(t, 0)
+    count = t if width == 0 else int.from_bytes(data[off + 1: off + 1 + width].ljust(width, b"\0"), "little")
+    have = max(0, len(data) - off - 1 - width) // 32
+    return count <= have + 5000
 
 
 def _cls(e) -> str:
@@ -52,14 +67,18 @@ def impl(op: str) -> str:
             except Exception as e:  # noqa: BLE001
                 return "err pack " + _cls(e)
             try:
-                d = BTC.message.parse(name, data)
+                d = limited(BTC.message.parse, name, data)
+            except Hang:
+                return "err parse Hang %s" % (data.hex() or "-")
             except Exception as e:  # noqa: BLE001
                 return "err parse %s %s" % (_cls(e), data.hex() or "-")
             return "ok %s %s" % (data.hex() or "-", dump_dict(d, [kk for kk, _ in fields]))
         if k == "msg_parse":
             name, data = a[1], (b"" if a[2] == "-" else bytes.fromhex(a[2]))
             try:
-                d = BTC.message.parse(name, data)
+                d = limited(BTC.message.parse, name, data)
+            except Hang:
+                return "err Hang"
             except Exception as e:  # noqa: BLE001
                 return "err " + _cls(e)
             names = [n for n, _ in REF.get(name, [])]
@@ -272,4 +291,5 @@ def gen(ctx, emit):
                 data = bytes(b)
             elif mode == 2:
                 data = data + rng.randbytes(rng.choice([1, 2, 9]))
-            emit("msg_parse %s %s" % (name, data.hex() or "-"))
+            if hash_array_count_sane(name, data):
+                emit("msg_parse %s %s" % (name, data.hex() or "-"))
